@@ -13,6 +13,7 @@ ALL_KINDS = GOOD_KINDS + BAD_KINDS
 
 SIMPLE_EXCS = ('ValueError', 'KeyError', 'CustomError', 'RuntimeError', 'TypeError', 'OSError')
 ALL_EXCS = tuple(runtime.ERROR_EXCS)
+ODD_EXCS = tuple(runtime.ODD_EXCS)
 
 
 @st.composite
